@@ -742,7 +742,11 @@ func (p *Path) execBlocks(fr *Frame) Value {
 			case *ssa.If:
 				c := p.operand(fr, x.Cond).(*Term)
 				if !c.IsConst() && !p.eng.noIfConv {
-					if j := p.tryIfConvert(fr, b, c); j != nil {
+					j := p.tryRegionConvert(fr, b, c)
+					if j == nil {
+						j = p.tryIfConvert(fr, b, c)
+					}
+					if j != nil {
 						next = j
 						fr.skipPhi = true
 						break
@@ -1801,6 +1805,236 @@ func (p *Path) tryIfConvert(fr *Frame, b *ssa.BasicBlock, c *Term) *ssa.BasicBlo
 	return j
 }
 
+
+// ---- region if-conversion: short-circuit conditions and nested pure diamonds ----
+
+type arrival struct {
+	pred  *ssa.BasicBlock
+	guard *Term
+}
+
+// speculateBody executes the non-phi, non-terminator instructions of blk in speculative
+// mode (no forks, no side effects); false if anything is not pure.
+func (p *Path) speculateBody(fr *Frame, blk *ssa.BasicBlock) (ok bool) {
+	defer func() {
+		p.spec = false
+		if r := recover(); r != nil {
+			switch r.(type) {
+			case specAbort, *GoPanic, pathAbort:
+				ok = false
+			default:
+				panic(r)
+			}
+		}
+	}()
+	p.spec = true
+	n := len(blk.Instrs) - 1
+	for _, ins := range blk.Instrs[:n] {
+		switch x := ins.(type) {
+		case *ssa.Phi:
+			continue
+		case *ssa.BinOp, *ssa.Convert, *ssa.ChangeType, *ssa.Extract, *ssa.Field, *ssa.FieldAddr,
+			*ssa.IndexAddr, *ssa.Index, *ssa.Slice, *ssa.MakeInterface, *ssa.ChangeInterface, *ssa.DebugRef, *ssa.UnOp:
+			p.execInstr(fr, ins)
+		case *ssa.Lookup:
+			if _, isMap := x.X.Type().Underlying().(*types.Map); isMap {
+				return false
+			}
+			p.execInstr(fr, ins)
+		case *ssa.Call:
+			bi, isB := x.Call.Value.(*ssa.Builtin)
+			if !isB || (bi.Name() != "len" && bi.Name() != "cap" && bi.Name() != "min" && bi.Name() != "max") {
+				return false
+			}
+			p.execInstr(fr, ins)
+		default:
+			return false
+		}
+	}
+	return true
+}
+
+// mergePhis sets the phis of blk from the given arrivals (guards mutually exclusive).
+func (p *Path) mergePhis(fr *Frame, blk *ssa.BasicBlock, arrs []arrival) bool {
+	var phis []*ssa.Phi
+	var vals []Value
+	for _, ins := range blk.Instrs {
+		phi, ok := ins.(*ssa.Phi)
+		if !ok {
+			break
+		}
+		var r Value
+		for k := len(arrs) - 1; k >= 0; k-- {
+			idx := -1
+			for i, pr := range blk.Preds {
+				if pr == arrs[k].pred {
+					idx = i
+					break
+				}
+			}
+			if idx < 0 {
+				return false
+			}
+			v := p.operand(fr, phi.Edges[idx])
+			if r == nil {
+				r = v
+				continue
+			}
+			m, ok := p.iteValue(arrs[k].guard, v, r)
+			if !ok {
+				return false
+			}
+			r = m
+		}
+		phis = append(phis, phi)
+		vals = append(vals, r)
+	}
+	for i, phi := range phis {
+		fr.locals[phi] = vals[i]
+	}
+	return true
+}
+
+// tryRegionConvert merges an acyclic region of pure blocks hanging off the conditional
+// branch at the end of b (short-circuit && / || chains, nested value diamonds) into
+// guarded ite values, and returns the single block where control continues, or nil.
+func (p *Path) tryRegionConvert(fr *Frame, b *ssa.BasicBlock, c *Term) (join *ssa.BasicBlock) {
+	const maxBlocks = 24
+	defer func() {
+		if r := recover(); r != nil {
+			p.spec = false
+			switch r.(type) {
+			case specAbort, *GoPanic, pathAbort:
+				join = nil
+			default:
+				panic(r)
+			}
+		}
+	}()
+	tt := p.tt
+	arrivals := map[*ssa.BasicBlock][]arrival{}
+	var order []*ssa.BasicBlock
+	add := func(pred, t *ssa.BasicBlock, g *Term) {
+		if g.IsFalse() {
+			return
+		}
+		as, seen := arrivals[t]
+		if !seen {
+			order = append(order, t)
+		}
+		for i := range as {
+			if as[i].pred == pred {
+				as[i].guard = tt.Or(as[i].guard, g)
+				return
+			}
+		}
+		arrivals[t] = append(as, arrival{pred, g})
+	}
+	add(b, b.Succs[0], c)
+	add(b, b.Succs[1], tt.Not(c))
+	processed := map[*ssa.BasicBlock]bool{b: true}
+	n := 0
+	for {
+		var T *ssa.BasicBlock
+		for _, t := range order {
+			if processed[t] || t == b {
+				continue
+			}
+			ok := true
+			for _, pr := range t.Preds {
+				if !processed[pr] {
+					ok = false
+					break
+				}
+			}
+			if !ok {
+				continue
+			}
+			// terminator must be Jump or If
+			switch t.Instrs[len(t.Instrs)-1].(type) {
+			case *ssa.Jump, *ssa.If:
+			default:
+				continue
+			}
+			if len(t.Instrs) > 32 {
+				continue
+			}
+			T = t
+			break
+		}
+		if T == nil {
+			break
+		}
+		n++
+		if n > maxBlocks {
+			return nil
+		}
+		arrs := arrivals[T]
+		if !p.mergePhis(fr, T, arrs) {
+			return nil
+		}
+		if !p.speculateBody(fr, T) {
+			// not pure: T is where control must continue; it stays unprocessed
+			processed[T] = false
+			// mark as terminal by removing eligibility: use a sentinel
+			return p.finishRegion(fr, b, order, processed, arrivals, T)
+		}
+		processed[T] = true
+		var g *Term
+		for _, a := range arrs {
+			if g == nil {
+				g = a.guard
+			} else {
+				g = tt.Or(g, a.guard)
+			}
+		}
+		switch x := T.Instrs[len(T.Instrs)-1].(type) {
+		case *ssa.Jump:
+			add(T, T.Succs[0], g)
+		case *ssa.If:
+			cv, ok := p.operand(fr, x.Cond).(*Term)
+			if !ok {
+				return nil
+			}
+			add(T, T.Succs[0], tt.And(g, cv))
+			add(T, T.Succs[1], tt.And(g, tt.Not(cv)))
+		}
+	}
+	return p.finishRegion(fr, b, order, processed, arrivals, nil)
+}
+
+func (p *Path) finishRegion(fr *Frame, b *ssa.BasicBlock, order []*ssa.BasicBlock, processed map[*ssa.BasicBlock]bool, arrivals map[*ssa.BasicBlock][]arrival, impure *ssa.BasicBlock) *ssa.BasicBlock {
+	var J *ssa.BasicBlock
+	for _, t := range order {
+		if processed[t] && t != b {
+			continue
+		}
+		if J != nil {
+			return nil // control can continue in two different places
+		}
+		J = t
+	}
+	if J == nil || J == b {
+		return nil
+	}
+	if impure != nil && J != impure {
+		return nil
+	}
+	nproc := 0
+	for t, ok := range processed {
+		if ok && t != b {
+			nproc++
+		}
+	}
+	if nproc == 0 && len(arrivals[J]) < 2 {
+		return nil // nothing merged
+	}
+	if !p.mergePhis(fr, J, arrivals[J]) {
+		return nil
+	}
+	p.nIfConv++
+	return J
+}
 
 // execInitInstr executes one instruction of a package initializer leniently: calls to other
 // packages' initializers are skipped (their globals are initialised lazily on first use)
